@@ -66,6 +66,9 @@ def _rows(calc, shot, mode):
         except pb.RangeError as e:
             return e.incomplete_trajectory
         return None
+    if mode == 'short':
+        # a recording step longer than the range: the muzzle row and one closing row (built by a branch of its own)
+        return calc.fire(shot, U.Yard(50), U.Yard(100)).trajectory
     if mode == 'trace':
         return step_trace(calc, shot, 300.0, True)
     if mode == 'back':
@@ -108,6 +111,9 @@ def rows(cell):
     alt0 = at.altitude >> U.Foot
     t0_k = at.temperature >> U.Kelvin
     vacuum = (at.pressure >> U.InHg) == 0
+    asked = {'vac5k': (5000.0, -10.0), 'hot': (1000.0, (100.0 - 32) / 1.8), 'icao': (0.0, 15.0)}.get(atmo)
+    if asked and (abs(alt0 - asked[0]) > 1e-6 or abs((at.temperature >> U.Celsius) - asked[1]) > 1e-6):
+        bad(f'the atmosphere was built for {asked[0]} ft and {asked[1]:.2f} C but says {alt0!r} ft and {at.temperature >> U.Celsius!r} C (every row\'s Mach hangs on it)')
     S = 0.0 if vacuum else miller(tw, w, d, l, 200.0 if (ex or {}).get('back') else 2750.0, at.temperature >> U.Fahrenheit, at.pressure >> U.InHg)
 
     def a_ref(alt):
@@ -188,6 +194,19 @@ def rows(cell):
             want = (r.time, r.distance >> P.distance, r.velocity >> P.velocity, r.mach, r.height >> P.drop, r.target_drop >> P.drop, r.drop_adj >> P.adjustment,
                     r.windage >> P.drop, r.windage_adj >> P.adjustment, r.look_distance >> P.distance, r.angle >> P.angular, r.density_factor, r.drag,
                     r.energy >> P.energy, r.ogw >> P.ogw, r.flag)
+            # ... and the formatted view prints those numbers (rounded to the digits it shows)
+            try:
+                cells_ = r.formatted()
+                for j in (0, 1, 2, 3, 4, 5, 6, 7, 8, 9, 10, 13, 14):
+                    num = cells_[j].split()[0]
+                    dec = len(num.split('.')[1]) if '.' in num and 'e' not in num.lower() else 0
+                    if 'e' in num.lower():
+                        continue
+                    if abs(float(num) - want[j]) > 0.5000001 * 10 ** -dec + 1e-9 * abs(want[j]):
+                        bad(f'row {i}: formatted() column {j} prints {cells_[j]!r}, the row says {want[j]!r}')
+                        break
+            except (ValueError, IndexError) as e_:
+                bad(f'row {i}: formatted() could not be read back: {e_}')
             if tuple(r.in_def_units()) != want:
                 j = next((k for k, (a, b) in enumerate(zip(r.in_def_units(), want)) if a != b), None)
                 bad(f'row {i}: in_def_units() column {j} is {list(r.in_def_units())[j] if j is not None else None!r}, the row says {want[j] if j is not None else None!r}')
@@ -267,7 +286,7 @@ PARTS = {'rows': rows, 'reuse': reuse, 'powder': powder}
 
 def plan(tier):
     looks = [0.0, 20.0, -20.0, 45.0]
-    modes = ['plain', 'extra', 'incomplete', 'trace']
+    modes = ['plain', 'extra', 'incomplete', 'trace', 'short']
     cells = [list(c) for c in itertools.product(looks, list(ATMOS), [12.0, -8.0, 0.0], list(BULLETS), modes)]
     if tier == 'quick':
         cells = [c for c in cells if not (c[4] == 'trace' and (c[3] != 'full' or c[0] in (-20.0,)))]
